@@ -581,6 +581,114 @@ fn gen_prog(rng: &mut Rng, known: bool) -> Prog {
     Prog { n0, fns, main }
 }
 
+// ------------------------------------------------------------------ filling the heap inside a region
+// Programs that allocate inside a @no_gc region until the configured heap limit is reached (strings by concatenation, vec growth,
+// arrays): inside the region nothing may be reclaimed, so the region must run into OutOfMemory -- and that is the only moment at which
+// an allocation path's "collect when it does not fit" branch would run.  One fresh VM with max_heap_bytes = limit per case.
+#[derive(Clone, Debug)]
+struct Fill { t: String, n: u64, pl: u64, m: u64, limit: u64, opt: u32, mode: u8, host: u64 }
+const FILL_TEMPLATES: &[&str] = &["concat_short", "concat_grow", "vec_grow", "arrays", "arrays_then_concat", "per_call", "nested_plain", "host_region", "lambda_region", "control"];
+impl Fill {
+    fn spec(&self) -> String { format!("{}:{}:{}:{}:{}:{}:{}:{}", self.t, self.n, self.pl, self.m, self.limit, self.opt, self.mode, self.host) }
+    fn parse(s: &str) -> Option<Fill> {
+        let f: Vec<&str> = s.split(':').collect();
+        if f.len() != 8 { return None; }
+        Some(Fill { t: f[0].into(), n: f[1].parse().ok()?, pl: f[2].parse().ok()?, m: f[3].parse().ok()?, limit: f[4].parse().ok()?, opt: f[5].parse().ok()?, mode: f[6].parse().ok()?, host: f[7].parse().ok()? })
+    }
+    /// does the allocation happen at no_gc_depth > 0 (source-level region or a region opened by the host)?
+    fn region(&self) -> bool { self.t != "control" || self.host > 0 }
+    /// lower bound of the bytes allocated while the depth is positive
+    fn region_bytes(&self) -> u64 {
+        let (n, pl, m) = (self.n, self.pl, self.m);
+        match self.t.as_str() {
+            "concat_grow" => n * 24 + pl * n * (n + 1) / 2,
+            "vec_grow" => 8 * n,
+            "arrays" => n * (24 + 8 * m),
+            "arrays_then_concat" => m * (24 + 8 * 1000) + n * (24 + 2 * pl),
+            _ => n * (24 + 2 * pl),
+        }
+    }
+    fn source(&self) -> String {
+        let (n, pl, m) = (self.n, self.pl, self.m);
+        let short = |name: &str, deco: &str| format!("{}fn {}(n, p) {{\n  let mut i = 0\n  let mut s = \"x\"\n  while i < n {{\n    s = p + p\n    i = i + 1\n  }}\n  return s.len()\n}}\n", deco, name);
+        match self.t.as_str() {
+            "concat_short" => format!("{}let pp = sx.repeat({})\nzq = fl_a({}, pp)\nzq\n", short("fl_a", "@no_gc\n"), pl, n),
+            "control" => format!("{}let pp = sx.repeat({})\nzq = fl_a({}, pp)\nzq\n", short("fl_a", ""), pl, n),
+            "host_region" => format!("{}let pp = sx.repeat({})\nzq = fl_a({}, pp)\nzq\n", short("fl_a", ""), pl, n),
+            "concat_grow" => format!("@no_gc\nfn fl_a(n, p) {{\n  let mut i = 0\n  let mut s = \"x\"\n  while i < n {{\n    s = s + p\n    i = i + 1\n  }}\n  return s.len()\n}}\nlet pp = sx.repeat({})\nzq = fl_a({}, pp)\nzq\n", pl, n),
+            "vec_grow" => format!("@no_gc\nfn fl_a(n, p) {{\n  let v = Vec<Int>[1]\n  let mut i = 0\n  let mut s = \"x\"\n  while i < n {{\n    v.push(i)\n    if i % 4096 == 0 {{ s = p + p }}\n    i = i + 1\n  }}\n  return v.len() + s.len()\n}}\nlet pp = sx.repeat({})\nzq = fl_a({}, pp)\nzq\n", pl, n),
+            "arrays" => format!("@no_gc\nfn fl_a(n, p) {{\n  let mut i = 0\n  let mut t = 0\n  let mut s = \"x\"\n  while i < n {{\n    let a = Array<Int>({})\n    t = t + a.len()\n    if i % 64 == 0 {{ s = p + p }}\n    i = i + 1\n  }}\n  return t + s.len()\n}}\nlet pp = sx.repeat({})\nzq = fl_a({}, pp)\nzq\n", m, pl, n),
+            "arrays_then_concat" => format!("@no_gc\nfn fl_a(n, p) {{\n  let mut i = 0\n  let mut t = 0\n  while i < {} {{\n    let a = Array<Int>(1000)\n    t = t + a.len()\n    i = i + 1\n  }}\n  let mut s = \"x\"\n  i = 0\n  while i < n {{\n    s = p + p\n    i = i + 1\n  }}\n  return t + s.len()\n}}\nlet pp = sx.repeat({})\nzq = fl_a({}, pp)\nzq\n", m, pl, n),
+            "per_call" => format!("@no_gc\nfn fl_c(p) {{ return p + p }}\nlet pp = sx.repeat({})\nlet mut fi = 0\nwhile fi < {} {{\n  zs = fl_c(pp)\n  fi = fi + 1\n}}\nzq = zs.len()\nzq\n", pl, n),
+            "nested_plain" => format!("{}@no_gc\nfn fl_o(n, p) {{\n  let r = fl_a(n, p)\n  return r\n}}\nlet pp = sx.repeat({})\nzq = fl_o({}, pp)\nzq\n", short("fl_a", ""), pl, n),
+            "lambda_region" => format!("@no_gc\nfn fl_o(n, p) {{\n  let g = fn(k) {{\n    let mut i = 0\n    let mut s = \"x\"\n    while i < k {{\n      s = p + p\n      i = i + 1\n    }}\n    return s.len()\n  }}\n  let r = g(n)\n  return r\n}}\nlet pp = sx.repeat({})\nzq = fl_o({}, pp)\nzq\n", pl, n),
+            _ => "zq\n".into(),
+        }
+    }
+}
+#[cfg(vbxq_aelys_lang_verif)]
+fn run_fill(k: usize, c: &Fill) {
+    use aelys_runtime::verif;
+    use hxlib::runner::*;
+    let cfg = match aelys_runtime::VmConfig::new(c.limit) { Ok(v) => v, Err(_) => { println!("FILLFAIL\t{}\tconfig", c.spec()); return; } };
+    let mut vm = match aelys_driver::new_vm_with_config(cfg, Vec::new()) { Ok(v) => v, Err(_) => { println!("FILLFAIL\t{}\tVMFAIL", c.spec()); return; } };
+    verif::gc_mode_set(0, 0);
+    let r0 = run_on_vm(&mut vm, PRELUDE, c.opt, 1_000_000);
+    if r0.class != "ok" { println!("FILLFAIL\t{}\tPRELUDEFAIL {}", c.spec(), esc(&r0.detail)); return; }
+    let host = if c.t == "host_region" { c.host.max(1) } else { c.host };
+    for _ in 0..host { vm.enter_no_gc(); }
+    let src = c.source();
+    let d0 = vm.no_gc_depth();
+    verif::gc_mode_set(c.mode, 3);
+    verif::gc_counters_reset();
+    let h0 = vm.heap().bytes_allocated();
+    let r = run_on_vm(&mut vm, &src, c.opt, 400_000_000);
+    let g = verif::gc_counters();
+    let d1 = vm.no_gc_depth();
+    let h1 = vm.heap().bytes_allocated();
+    verif::gc_mode_set(0, 0);
+    let class = match r.class.as_str() { "ok" => 0, "runtime:OutOfMemory" => 1, "budget" => 3, "compile-error" => 7, "panic" => 8, _ => 9 };
+    println!("FILL\t{}\t{}\t{}\t{}\t{} {} {} {} {} {} {} {} {}\t{}\t{}", k, c.spec(), if c.region() || host > 0 { 1 } else { 0 }, c.region_bytes(),
+             class, d0, d1, g.0, g.1, g.2, g.3, h0, h1, esc(&src), if class != 0 { esc(&format!("{} {}", r.class, r.detail.lines().next().unwrap_or(""))) } else { String::new() });
+}
+fn gen_fills(seed: u64, random: u64, opts: &[u32], limits: &[u64]) -> Vec<Fill> {
+    let mut out = vec![];
+    let mut rng = Rng::new(seed ^ 0xF111);
+    let sized = |t: &str, limit: u64, over: bool, pl: u64, rng: &mut Rng| -> (u64, u64) {
+        // (n, m): the region allocates about 3 x the limit (must fail) or about a quarter of it (fits)
+        let target = if over { 3 * limit } else { limit / 4 };
+        match t {
+            "concat_grow" => { let n = (((2 * target) as f64 / pl.max(1) as f64).sqrt() as u64).max(2); (n, 0) }
+            "vec_grow" => (target / 8, 0),
+            "arrays" => { let m = *rng.pick(&[10u64, 500, 20_000]); (target / (24 + 8 * m) + 1, m) }
+            "arrays_then_concat" => { let m = if over { (limit - 100_000) / 8024 } else { limit / 8 / 8024 }; ((if over { 2 * limit } else { limit / 8 }) / (24 + 2 * pl) + 1, m) }
+            _ => (target / (24 + 2 * pl) + 1, 0),
+        }
+    };
+    for t in FILL_TEMPLATES {
+        for &limit in limits {
+            for &opt in opts {
+                for (mode, over, pl) in [(0u8, true, 40u64), (1, true, 1000), (0, false, 40), (4, true, 7)] {
+                    if *t == "control" && mode != 0 { continue; }
+                    let (n, m) = sized(t, limit, over, pl, &mut rng);
+                    out.push(Fill { t: t.to_string(), n, pl, m, limit, opt, mode, host: 0 });
+                }
+            }
+        }
+    }
+    for _ in 0..random {
+        let t = *rng.pick(FILL_TEMPLATES);
+        let limit = *rng.pick(limits);
+        let pl = *rng.pick(&[1u64, 7, 40, 64, 500, 4096, 60_000]);
+        let over = rng.chance(3, 4);
+        let (n, m) = sized(t, limit, over, pl, &mut rng);
+        let mode = if t == "control" { 0 } else { *rng.pick(&[0u8, 0, 1, 3, 4]) };
+        let host = if rng.chance(1, 6) { *rng.pick(&[1u64, 2, 70]) } else { 0 };
+        out.push(Fill { t: t.to_string(), n, pl, m, limit, opt: *rng.pick(opts), mode, host });
+    }
+    out
+}
+
 // ------------------------------------------------------------------ running
 #[cfg(vbxq_aelys_lang_verif)]
 fn run_session(sid: &str, progs: &[Prog], opts: &[u32], host_depth: u64) {
@@ -654,6 +762,17 @@ fn main() {
             if c3.1 != 1 { skips = "false"; }
         }
         println!("error_restores_depth={} inliner_skips_no_gc={}", restores, skips);
+        return;
+    }
+    if flag("--fill") || arg("--fill-cases").is_some() {
+        // heap-filling programs under a small configured limit (see Fill)
+        let limits: Vec<u64> = arg("--limits").unwrap_or("1048576,2097152".into()).split(',').filter_map(|s| s.parse().ok()).collect();
+        let cases: Vec<Fill> = match arg("--fill-cases") {
+            Some(l) => l.split(',').filter_map(Fill::parse).collect(),
+            None => gen_fills(seed, arg_u64("--random", 0), &opts, &limits),
+        };
+        let handle = std::thread::Builder::new().stack_size(256 << 20).spawn(move || { for (k, c) in cases.iter().enumerate() { run_fill(k, c); } }).unwrap();
+        handle.join().unwrap();
         return;
     }
     if let Some(file) = arg("--raw") {
